@@ -123,6 +123,51 @@ def select_for_miri(g: RunGroup, tier: str, seed: int):
     return sorted(picks, key=lambda c: -len(c.decl.variants))
 
 
+# Configurations the documentation forbids *because the generated code would be unsound* (the range-mode iterator
+# transmutes every integer between MIN and MAX).  On a tree which holds they do not compile, so there is no execution to
+# watch; if a change makes one compile, C02 runs it: every value it yields must still be a declared variant (round 5,
+# V02b: the macro-time refusal was replaced by a const assertion which nothing evaluates).
+FORBIDDEN = [
+    ("holes_range_mode", "#[enum_tools(iter(mode = \"range\"))]", "u8", [("A", 1), ("B", 2), ("C", 5)], False),
+    ("holes_range_mode_split", "#[enum_tools(Debug)]\n#[enum_tools(iter(mode = \"range\", name = \"iter\"))]", "i16",
+     [("A", -3), ("B", 0), ("C", 300), ("D", 301)], False),
+    ("holes_range_mode_with_range", "#[enum_tools(iter(mode = \"range\"), range)]", "i8", [("A", -128), ("B", -127), ("C", 127)], True),
+    ("holes_range_mode_one_gap", "#[enum_tools(into, iter(mode = \"range\"))]", "u64", [("A", 0), ("B", 2)], False),
+]
+
+
+def forbidden_probes(tier: str):
+    """-> (violations, coverage)"""
+    from ..compilegroup import CompileGroup
+    g = CompileGroup("c02forbid", tier)
+    out, cov = [], {}
+    for name, attr, repr_, vs, with_range in FORBIDDEN:
+        body = ", ".join("%s = %d" % (i, v) for i, v in vs)
+        main = ("use enum_tools::EnumTools;\n#[derive(Clone, Copy, EnumTools)]\n%s\n#[repr(%s)]\npub enum E { %s }\n"
+                "fn main() {\n    for v in E::iter() { println!(\"{}\", v as %s as i128); }\n" % (attr, repr_, body, repr_))
+        if with_range:
+            main += "    for v in E::range(E::%s, E::%s) { println!(\"{}\", v as %s as i128); }\n" % (vs[0][0], vs[-1][0], repr_)
+        main += "}\n"
+        with Lock(g.root + ".lock"):
+            built, rc, stdout, err = g.probe_bin_raw("forbid_" + name, main)
+        if not built:
+            cov[name] = "refused at compile time: " + err[:80]
+            continue
+        members = {v for _, v in vs}
+        seen = [int(x) for x in stdout.split() if x.lstrip("-").isdigit()]
+        bad = [x for x in seen if x not in members]
+        cov[name] = "compiles; exit %s; yielded %s" % (rc, seen[:12])
+        if rc != 0 or bad:
+            out.append(Violation(
+                "C02", "C02|forbidden-config-unsound|%s" % name,
+                "%s on #[repr(%s)] enum { %s } is documented as invalid, compiles nevertheless, and iter() %s" % (
+                    attr.replace("\n", " "), repr_, body,
+                    ("yields values which are not declared variants: %s" % bad[:6]) if bad else
+                    ("aborts (exit %s): %s" % (rc, " | ".join(err.splitlines()[-3:])[:300]))),
+                {"kind": "forbidden-config", "source": main, "stdout": stdout[-2000:], "stderr": err[-2000:], "rc": rc}))
+    return out, cov
+
+
 def run(tier: str, seed: int) -> int:
     prop = "C02"
     t0 = time.time()
@@ -158,6 +203,8 @@ def run(tier: str, seed: int) -> int:
                                    case_timeout=120,
                                    sets=None if tier == "quick" else {"exhaustive_bits": 8, "rand_hist": 40, "pairs_all_n": 16, "pairs_sample": 100})
         phase["release_build_and_valgrind_s"] = round(time.time() - t1, 1)
+        fv, forbidden_cov = forbidden_probes(tier)
+        violations += fv
         sites = {"native": {}, "miri": {}, "valgrind": {}}
         evaluations = 0
         reached_cases = set()
@@ -219,6 +266,7 @@ def run(tier: str, seed: int) -> int:
             "phase_seconds": phase,
             "functional_mismatches_left_to_their_own_properties": functional_noted,
             "unbuildable_cases": sorted(set(unbuildable) | set(g.dropped)),
+            "forbidden_configurations_probed": forbidden_cov,
         }
         need = ["transmute:try_from(gapless)", "transmute:try_from(holes)",
                 "transmute:next/next_back(gapless)", "unwrap_unchecked+transmute:next/next_back(holes)",
